@@ -83,6 +83,39 @@ pub fn run_conv(out: &mut Out, seed: u64, random: u64) {
             if !ok { out.finding("conversion", "num", x, &ph, &format!("Integer({}) (the expression is the identity on Integers)", n), &o.show(), json!({})); }
         }
     }
+    // an Integer next to a Float: selecting between them (max, min, median of three) must go by their exact numeric values - the
+    // Integer is not converted to a double, the Float not cast to an integer (the casts saturate at the ends of the range)
+    let big_ints: Vec<i64> = vec![i64::MAX, i64::MIN, i64::MAX - 1, i64::MIN + 1, (1 << 53) + 1, -(1 << 53) - 1, 9007199254740993, 0, -1, 1 << 62];
+    let floats: Vec<(f64, &str)> = vec![(9223372036854775808.0, "2^63"), (-9223372036854775808.0, "(0-2^63)"), (9223372036854775808.0 * 2.0, "2^64"), (-18446744073709551616.0, "(0-2^64)"),
+                                        (9007199254740992.0, "9007199254740992."), (9007199254740994.0, "9007199254740994."), (-9007199254740994.0, "(-9007199254740994.)"),
+                                        (9223372036854774784.0, "9223372036854774784."), (0.5, "0.5"), (-0.5, "(-0.5)"), (1e30, "10^30"), (f64::INFINITY, "(1/0)"), (f64::NEG_INFINITY, "(-1/0)")];
+    // exact order of an i64 and a double
+    let cmp = |n: i64, f: f64| -> std::cmp::Ordering {
+        if f >= 9223372036854775808.0 { return std::cmp::Ordering::Less; }
+        if f < -9223372036854775808.0 { return std::cmp::Ordering::Greater; }
+        let t = f.trunc();
+        match n.cmp(&(t as i64)) { std::cmp::Ordering::Equal => 0.0f64.partial_cmp(&(f - t)).unwrap(), o => o }
+    };
+    for n in &big_ints {
+        for (f, ftext) in &floats {
+            let ord = cmp(*n, *f);
+            if ord == std::cmp::Ordering::Equal { continue; }
+            let ph = Val::N(Number::Integer(*n));
+            for (text, want_int) in [(format!("max(@,{})", ftext), ord == std::cmp::Ordering::Greater), (format!("max({},@)", ftext), ord == std::cmp::Ordering::Greater),
+                                     (format!("min(@,{})", ftext), ord == std::cmp::Ordering::Less), (format!("min({},@)", ftext), ord == std::cmp::Ordering::Less),
+                                     (format!("med(@,{},@)", ftext), true), (format!("med({},@,{})", ftext, ftext), false)] {
+                let (o, _) = crate::call::call("num", &text, &ph);
+                out.stats.calls += 1;
+                let key = h64(&("order", &text, *n)); out.stats.distinct.insert(key); out.stats.nontrivial.insert(key);
+                let ok = match &o {
+                    crate::val::Outcome::Ok(Val::N(Number::Integer(m))) => want_int && m == n,
+                    crate::val::Outcome::Ok(Val::N(Number::Float(g))) => !want_int && g == f,
+                    _ => false,
+                };
+                if !ok { out.finding("conversion", "num", &text, &ph, &format!("{} (the exact order of Integer({}) and Float({:e}))", if want_int { format!("Integer({})", n) } else { format!("Float({:e})", f) }, n, f), &o.show(), json!({})); }
+            }
+        }
+    }
     out.stats.samples.push(json!({"structured_values": vals.len(), "random_bit_patterns": random, "example": format!("{:?} -> {:?}", 9223372036854775808.0f64, Number::from(9223372036854775808.0))}));
 }
 
